@@ -5,7 +5,7 @@ probability computed from the *logged arguments* of the calls."""
 import random as _random
 from fractions import Fraction
 
-_PATCHED = ("random", "randint", "randrange", "choices", "choice", "uniform", "shuffle")
+_PATCHED = ("random", "randint", "randrange", "choices", "choice", "uniform", "shuffle", "gauss")
 
 
 class Unscripted(Exception):
@@ -18,9 +18,13 @@ class Scripted:
     prefix: list of alternative indices to take at the first len(prefix) calls; afterwards
     alternative 0 is taken.  thresholds: rational cut points of [0,1) for random.random().
     uniform_values: optional function (a, b) -> list of (value, Fraction) to script
-    random.uniform with finitely many lattice values."""
+    random.uniform with finitely many lattice values.
+    gauss_values: optional function (mu, sigma) -> list of (value, Fraction) giving a finite set of
+    representative outcomes of random.gauss (small and large deviations; the weights are NOT the
+    normal law, checks that script gauss must not use them as probabilities).  When it is None
+    random.gauss is left untouched (the real generator)."""
 
-    def __init__(self, prefix=(), thresholds=(), uniform_values=None):
+    def __init__(self, prefix=(), thresholds=(), uniform_values=None, gauss_values=None):
         self.prefix = list(prefix)
         self.log = []  # (fn, args, nalts, idx, prob, result)
         cuts = sorted({Fraction(t) for t in thresholds if 0 < Fraction(t) < 1})
@@ -30,6 +34,7 @@ class Scripted:
             for i in range(len(edges) - 1)
         ]
         self.uniform_values = uniform_values
+        self.gauss_values = gauss_values
         self._saved = {}
 
     # -- plumbing
@@ -52,6 +57,8 @@ class Scripted:
         _random.choice = self.choice
         _random.uniform = self.uniform
         _random.shuffle = self.shuffle
+        if self.gauss_values is not None:
+            _random.gauss = self.gauss
         return self
 
     def __exit__(self, *exc):
@@ -121,6 +128,11 @@ class Scripted:
             raise Unscripted(f"random.uniform({a}, {b}) in a program of the discrete fragment")
         return self._pick("uniform", (a, b), list(self.uniform_values(a, b)))
 
+    def gauss(self, mu=0.0, sigma=1.0):
+        if sigma == 0:
+            return self._pick("gauss", (mu, sigma), [(mu, Fraction(1))])
+        return self._pick("gauss", (mu, sigma), list(self.gauss_values(mu, sigma)))
+
     # -- results
     def weight(self):
         w = Fraction(1)
@@ -132,7 +144,7 @@ class Scripted:
         return [e[3] for e in self.log]
 
 
-def explore(run, thresholds=(), uniform_values=None, max_paths=200000):
+def explore(run, thresholds=(), uniform_values=None, max_paths=200000, gauss_values=None):
     """Depth-first enumeration of every RNG branch of run().
 
     run() is called once per branch inside a Scripted context and returns an outcome.
@@ -141,7 +153,7 @@ def explore(run, thresholds=(), uniform_values=None, max_paths=200000):
     count = 0
     while stack:
         prefix = stack.pop()
-        with Scripted(prefix, thresholds, uniform_values) as s:
+        with Scripted(prefix, thresholds, uniform_values, gauss_values) as s:
             outcome = run(s)
         count += 1
         if count > max_paths:
